@@ -127,13 +127,14 @@ func init() {
 		Title: "Attachment completion report lists exactly the missing byte ranges",
 		Roots: []string{
 			"attachment.(*Package).StatisticalMissSegments", "model.(*P0x9212).Encode", "model.(*P0x9212).Parse", "model.(*T0x1212).ReplyBody",
+			"attachment.(*standardJT808DataHandle).OnPackageProgressEvent",
 		},
 		Decided: "StatisticalMissSegments for every file size and every set of received chunks inside the file (map offset->length, any count, overlapping allowed): nil exactly when CurrentSize == FileSize; " +
 			"otherwise every returned range has positive length, lies inside the file, ranges are strictly ascending and non-adjacent, and every byte below FileSize that no chunk covers is in a returned range (none omitted); " +
 			"the 0x9212 body carries the result flag (0 complete / 1 retransmit), the count and each (offset, length) pair big-endian at 4+n+8k; Parse reads them back from exactly those positions",
 		Undecided: []string{
 			"no returned range overlaps received data, and maximality (needs the converse link every-map-entry-is-a-sorted-segment through the map iteration and sort.Slice models)",
-			"standardJT808DataHandle.OnPackageProgressEvent, which looks the file up in a string-keyed map and stores the ranges in the reply (string-keyed maps are outside the engine's subset)",
+			"the 0x1212 handler is covered by two clauses only: for a known file the reply's list is recomputed on every completion (empty when the file is complete) and the stage is 'supplementary' exactly when ranges are missing; that the list it stores is the value StatisticalMissSegments returned is visible to the verifier (the call is inlined) but not restated as a clause",
 			"the socket-level sequence (ranges resent, next completion response says complete)",
 			"more than 255 missing ranges (count byte wraps; outside the property's stated domain)",
 		},
@@ -191,7 +192,7 @@ func init() {
 			"attachment.(*baseStreamDataHandle).HasStreamData", "attachment.(*baseStreamDataHandle).HasMinHeadLen", "attachment.(*baseStreamDataHandle).Parse",
 			"attachment.(*baseStreamDataHandle).GetDataOffsetAndLen", "attachment.(*baseStreamDataHandle).GetFileName",
 			"attachment.(*heiBiaoStreamDataHandle).HasMinHeadLen", "attachment.(*heiBiaoStreamDataHandle).Parse",
-			"attachment.(*Package).StatisticalMissSegments!safety", "attachment.(*standardJT808DataHandle).OnPackageProgressEvent!safety",
+			"attachment.(*Package).StatisticalMissSegments!safety", "attachment.(*standardJT808DataHandle).OnPackageProgressEvent", "attachment.(*PackageProgress).stageStreamData",
 			"attachment.(*standardJT808DataHandle).Parse",
 			"attachment.(*fileEvent).OnEvent",
 			"model.(*T0x1210).Parse", "model.(*T0x1211).Parse", "model.(*T0x1212).Parse", "model.(*T0x1212).ReplyBody", "model.(*P0x9212).Encode",
@@ -218,13 +219,15 @@ func init() {
 			"attachment.(*baseStreamDataHandle).HasStreamData", "attachment.(*baseStreamDataHandle).HasMinHeadLen", "attachment.(*baseStreamDataHandle).Parse",
 			"attachment.(*baseStreamDataHandle).GetDataOffsetAndLen", "attachment.(*baseStreamDataHandle).GetFileName",
 			"attachment.(*heiBiaoStreamDataHandle).HasMinHeadLen", "attachment.(*heiBiaoStreamDataHandle).Parse",
-			"attachment.(*PackageProgress).parseJT808Message",
+			"attachment.(*PackageProgress).parseJT808Message", "attachment.(*PackageProgress).stageStreamData",
 		},
-		Decided: "the classification and header kernel of the statement: the pending bytes are treated as a chunk exactly when they start with the marker 30 31 63 64, so a control frame is recognised as such whatever bytes it contains " +
+		Decided: "chunk bookkeeping (stageStreamData, under the assumption that the handler is the standard one and chunk headers use the 62-byte layout): the chunk's bytes are recorded under its offset, the pending bytes advance past the chunk, the file's byte count changes by the chunk length minus what was recorded under that offset before (a resent chunk adds nothing), the stage is 'complete' exactly when the count equals the announced size, other files' counts and the set of records are untouched; " +
+			"the classification and header kernel of the statement: the pending bytes are treated as a chunk exactly when they start with the marker 30 31 63 64, so a control frame is recognised as such whatever bytes it contains " +
 			"(the statement's marker clause); the minimum header length tests; both chunk-header layouts (marker, NUL-padded 50-byte name or length-prefixed name, offset and length big-endian at their positions, header and body lengths returned); " +
 			"control-frame extraction takes the bytes up to and including the first 0x7e after the first byte and leaves the rest pending; all without panics for every input",
 		Undecided: []string{
-			"reassembly itself: PackageProgress.stageStreamData/iter (interface dispatch, range-over-func, sort, deferred closure) are outside the verifier's subset: 'complete only when every byte has arrived', byte-identical content, duplicate and out-of-order chunks, any segmentation of the stream. Reading the code: CurrentSize is increased for every chunk, also for a resent one, so duplicates can make CurrentSize reach FileSize while bytes are missing - not decided here, not repaired",
+			"that the byte count equals the number of distinct bytes received (it is the total length of the recorded chunks: overlapping chunks with different offsets are still counted twice), hence 'complete only when every byte has arrived' for overlapping chunks, and the byte-identical content of the assembled body (the concatenation loop over the sorted offsets is only checked for absence of panics)",
+			"PackageProgress.iter (range-over-func driver), the Hei-biao dialect path through stageStreamData, any segmentation of the stream across reads",
 			"each control frame answered exactly once (connection.run, goroutines and sockets)",
 			"the file-name field (bytes.Trim is modelled as 'some sub-slice')",
 		},
